@@ -81,6 +81,9 @@ func (p *Program) scanNondet() []scanSite {
 				case ssa.CallInstruction:
 					if callee := x.Common().StaticCallee(); callee != nil {
 						name := callee.String()
+						if callee.Name() == "init" {
+							continue // package initialiser chain
+						}
 						if name == "time.Now" || strings.HasPrefix(name, "math/rand.") || strings.HasPrefix(name, "(*math/rand.") || strings.HasPrefix(name, "maps.Keys") || strings.HasPrefix(name, "golang.org/x/exp/maps.") {
 							sites = append(sites, scanSite{"call:" + name, f.String(), pos(in)})
 						}
